@@ -1421,6 +1421,11 @@ def gen_poststep(tier, rng):
             b = list(args)
             b[5] = d
             cases.append(("poststep", b))
+    # a stream crafted for a caller who keeps polling: the pair of an inner node is damaged, and the pair that follows it is
+    # replaced by the (honest) pair of the node whose hash is then on top of the pending stack
+    for (size, dmg, dst, src) in ((8192, 70, 128, 4352), (8192, 100, 128, 4352), (4096, 70, 128, 2240)):
+        for d in (0, 1):
+            cases.append(("poststep", dec_case(0, seed(rng), size, 0, size, d, 0, [0], ops=[2, dmg, 1 + rng.randrange(255), 0, 7, dst, src, 64])[1]))
     return cases
 
 
@@ -1455,6 +1460,24 @@ def known_fsm_post_error_ok(r):
     return False
 
 
+def known_sync_post_error_ok(r):
+    """sync iterator polled again after a ParentHashMismatch: the expected hash was popped and the children were not
+    pushed, so the next pair in the stream is compared with the hash of a different node and can come back as Ok
+    under the wrong node id (before the iterator eventually panics)"""
+    if r["family"] != "poststep" or r["args"][5] != 0:
+        return False
+    o = r["obs_dev"]
+    ev = [o[i:i + 4] for i in range(0, len(o), 4)]
+    seen = False
+    for e in ev:
+        if e[0] == 3 and e[1] == 3:
+            seen = True
+        elif e[0] in (1, 2) and seen:
+            return True
+    return False
+
+
+KNOWN_CLASSES["sync_post_error_ok"] = known_sync_post_error_ok
 KNOWN_CLASSES["sync_post_error_panic"] = known_sync_post_error_panic
 KNOWN_CLASSES["fsm_post_error_ok"] = known_fsm_post_error_ok
 
@@ -1490,6 +1513,9 @@ _with("C02", [F_SCHED], lambda tier, rng: [c for c in gen_sched(tier, random.Ran
                                          if c[1][4] in (0, 1, 2) and c[1][7] == 0][:: (3 if tier == "quick" else 1)],
       "sched: the same honest streams delivered through transports that fragment, interrupt and suspend (decoder iterators and decode_ranges, "
       "with further bytes behind the response).")
+_with("C01", [F_SCHED], lambda tier, rng: [c for c in gen_sched(tier, random.Random(rng.randrange(1 << 30)), True)
+                                         if c[1][4] in (0, 1, 2) and c[1][5] != 0][:: (2 if tier == "quick" else 1)],
+      "sched: the k-th read of the transport fails (kinds incl. TimedOut): the decoder stops there; it never goes on to yield items.")
 _with("C09", [F_SCHED], lambda tier, rng: [c for c in gen_sched(tier, random.Random(rng.randrange(1 << 30)), False)
                                          if c[1][4] in (0, 1, 2)][:: (3 if tier == "quick" else 1)],
       "sched: honest and truncated streams delivered through fragmenting transports (a short read is not an end of stream).")
@@ -1501,6 +1527,48 @@ for _p in ("C04", "C05", "C08"):
     _with(_p, [F_ENCODE], lambda tier, rng: gen_odd_providers(tier, random.Random(rng.randrange(1 << 30))),
           "encode: providers whose data file is a group-aligned prefix of the blob, or longer than the blob, with the complete outboard: "
           "all five encoders send exactly what a complete provider would, up to the first group they do not hold.")
+# ---- the four validators side by side, incl. io-backed outboard stores shorter than the full outboard (finding F9)
+F_AGREE_VAL = Family("agree_val", "Run.RunProto", "run_agree_val", "holds_agree_val", lambda a, o: a[2] > 1024)
+F_AGREE_VAL.shard_cases = 60
+
+
+def gen_agree_val(tier, rng):
+    cases = []
+    sizes = [1025, 2049, 5 * 1024 + 7, 8 * 1024, 13 * 1024 + 100] if tier == "quick" else ENC_SIZES[3:] + [23 * 1024 + 512, 31 * 1024 + 1]
+    for size in sizes:
+        n = nchunks(size)
+        for bs in range(0, 3):
+            oblen = 64 * (max(1, -(-n // (1 << bs))) - 1)
+            for q in pick_queries(n, rng, 1, (3 if tier == "quick" else 10)):
+                cors = [[]]
+                cors.append([0, rng.randrange(0, size), 1 + rng.randrange(255)])
+                if oblen:
+                    cors.append([1, rng.randrange(0, oblen), 1 + rng.randrange(255)])
+                    cors.append([3, 64 * rng.randrange(0, oblen // 64), 0])
+                cors.append([2, rng.randrange(0, size), 0])
+                cors.append([4, rng.randrange(0, size), 0])
+                for c in cors:
+                    cases.append(("agree_val", [rng.choice([0, 1, 2]), seed(rng), size, bs, 0, rng.randrange(0, 5), len(c) // 3] + c + q))
+                # a partially written outboard file: shorter than the full outboard (io-backed stores only)
+                if oblen >= 128:
+                    for cut in (64 * rng.randrange(0, oblen // 64), rng.randrange(1, oblen)):
+                        cases.append(("agree_val", [0, seed(rng), size, bs, 0, rng.randrange(0, 2), 1, 6, cut, 0] + q))
+    return cases
+
+
+def known_f9(r):
+    # agree_val: args [kind, seed, size, bs, _, okind, ncor, (w, pos, delta)*, q...]
+    if r["family"] != "agree_val":
+        return False
+    a = r["args"]
+    return a[5] in (0, 1) and any(a[7 + 3 * k] == 6 for k in range(a[6]))
+
+
+KNOWN_CLASSES["f9_short_outboard_file"] = known_f9
+for _p in ("C06", "C08"):
+    _with(_p, [F_AGREE_VAL], lambda tier, rng: gen_agree_val(tier, random.Random(rng.randrange(1 << 30))),
+          "agree_val: the two data validators and the two outboard validators side by side (sync vs fsm) on intact, altered, zero-filled and "
+          "truncated stores, incl. io-backed outboard files shorter than the full outboard (known finding F9).")
 for _p in ("C12", "C13"):
     _with(_p, [F_SHORTW], lambda tier, rng: [c for c in gen_shortw(tier, random.Random(rng.randrange(1 << 30))) if c[1][4] == 2],
           "shortw: outboard_post_order into sinks that take few bytes per call or fill up (every pair lands in its slot, or the error surfaces).")
